@@ -500,6 +500,9 @@ def main():
             "trusted_base": P.get("trusted_base", []) + [
                 "Lean 4 kernel; axioms allowed: propext, Classical.choice, Quot.sound",
                 "fact extractor /verif/extract (go/ast, data only)",
+            ] + (["Go->Lean translator /verif/extract/translate.go and the semantics of its combinators (Gonuts/Model/GoSem.lean): "
+                  "the translated functions (Gonuts/Gen/Code.lean, regenerated on this run) are what Tie.Code's theorems are about"]
+                 if "Gonuts.Tie.Code" in prop_mods else []) + [
                 "correspondence harness /verif/harness (real code in-process vs Lean driver)"],
             "theorems": thms,
             "evaluations": evaluations,
